@@ -3,7 +3,7 @@
 // Contracts for package super, checked by /verif/govc (comment-only file).
 package super
 
-//@ specfunc superInv(fs *FsSuper) = fs != nil && fs.Size == dsksize && fs.Maxaddr == dsksize && fs.nLog == 513 && fs.NBlockBitmap == dsksize/32768 + 1 && fs.NInodeBitmap == 1 && fs.nInodeBlk == 1024
+//@ predicate superInv(fs *FsSuper) = fs != nil && fs.Size == dsksize && fs.Maxaddr == dsksize && fs.nLog == 513 && fs.NBlockBitmap == dsksize/32768 + 1 && fs.NInodeBitmap == 1 && fs.nInodeBlk == 1024
 
 // "accepted size" is defined by the code: markAlloc does not panic iff this holds (G2, proved in nfs).
 //@ specfunc acceptedSize(sz uint64) = sz/32768 < 31229 && sz >= 1539 + sz/32768
